@@ -348,14 +348,16 @@ impl PoseGen {
                 let base = iso.iso();
                 let mut t = base.p;
                 let mut q = mat_to_quat(&base.r);
-                let v = match kind % 5 {
+                let s = (*slot % 7) as usize;
+                // quaternion slots only take NaN / +-inf (a finite non-unit quaternion is not a pose)
+                let kind = if s >= 3 { kind % 3 } else { kind % 5 };
+                let v = match kind {
                     0 => f64::NAN,
                     1 => f64::INFINITY,
                     2 => f64::NEG_INFINITY,
                     3 => 1e300,
                     _ => 5e-324,
                 };
-                let s = (*slot % 7) as usize;
                 if s < 3 {
                     t[s] = v;
                 } else {
